@@ -57,6 +57,7 @@ def _self_attr(n: ast.AST) -> Optional[str]:
 
 def lattice_classes(ctx) -> List[ClassInfo]:
     mod = ctx.p.module(MOD)
+    _MODULE_TREES[MOD] = mod.tree
     base = ctx.p.cls(f"{MOD}.lattice")
     out = [ctx.p.classes[q] for q in ctx.p.subclasses(base.qualname, include_self=False)]
     if not out:
@@ -622,6 +623,63 @@ def _alias_free(fn_node: ast.AST) -> ast.AST:
     return node
 
 
+_MODULE_TREES: Dict[str, ast.Module] = {}
+
+
+def _inline_enumeration_helper(v: ast.AST, post_node: ast.AST, ci: ClassInfo) -> ast.AST:
+    """self.sites = helper(self.shape) with a module-level helper made of local (tuple-unpacking) assignments and one
+    return: the returned expression with the arguments substituted; a `self.<field>` argument that __post_init__ assigns
+    once from a tuple display is read as that tuple."""
+    import copy
+    if not (isinstance(v, ast.Call) and isinstance(v.func, ast.Name) and not v.keywords):
+        return v
+    tree = _MODULE_TREES.get(ci.module)
+    if tree is None:
+        return v
+    helper = next((f for f in tree.body if isinstance(f, ast.FunctionDef) and f.name == v.func.id), None)
+    if helper is None or helper.args.vararg or helper.args.kwarg or len(helper.args.args) != len(v.args):
+        return v
+    field_tuples: Dict[str, ast.AST] = {}
+    counts: Dict[str, int] = {}
+    for st in ast.walk(post_node):
+        if isinstance(st, ast.Assign):
+            for t in st.targets:
+                a = _self_attr(t)
+                if a is not None:
+                    counts[a] = counts.get(a, 0) + 1
+                    field_tuples[a] = st.value
+    env: Dict[str, ast.AST] = {}
+    for prm, act in zip(helper.args.args, v.args):
+        a = _self_attr(act)
+        if a is not None and counts.get(a) == 1 and isinstance(field_tuples[a], ast.Tuple):
+            act = field_tuples[a]
+        env[prm.arg] = act
+
+    class Sub(ast.NodeTransformer):
+        def visit_Name(self, n):
+            if isinstance(n.ctx, ast.Load) and n.id in env:
+                return copy.deepcopy(env[n.id])
+            return n
+    body = [st for st in helper.body if not (isinstance(st, ast.Expr) and isinstance(st.value, ast.Constant))]
+    for st in body[:-1]:
+        if not (isinstance(st, ast.Assign) and len(st.targets) == 1):
+            return v
+        tg, val = st.targets[0], Sub().visit(copy.deepcopy(st.value))
+        if isinstance(tg, ast.Name):
+            env[tg.id] = val
+        elif isinstance(tg, ast.Tuple) and isinstance(val, ast.Tuple) and len(tg.elts) == len(val.elts) and \
+                all(isinstance(e, ast.Name) for e in tg.elts):
+            for e, x in zip(tg.elts, val.elts):
+                env[e.id] = x
+        else:
+            return v
+    if not body or not isinstance(body[-1], ast.Return) or body[-1].value is None:
+        return v
+    out = Sub().visit(copy.deepcopy(body[-1].value))
+    ast.fix_missing_locations(out)
+    return out
+
+
 def _sites_decode(ci: ClassInfo):
     """Find `self.sites = tuple([ (c0, c1, ..) for i in range(N) ])` in __post_init__."""
     post = ci.methods.get("__post_init__")
@@ -629,7 +687,7 @@ def _sites_decode(ci: ClassInfo):
         return None
     for st in ast.walk(_alias_free(post.node)):
         if isinstance(st, ast.Assign) and any(_self_attr(t) == "sites" for t in st.targets):
-            v = st.value
+            v = _inline_enumeration_helper(st.value, post.node, ci)
             if isinstance(v, ast.Call) and dotted(v.func) == "tuple" and v.args:
                 v = v.args[0]
             if isinstance(v, (ast.ListComp, ast.GeneratorExp)) and len(v.generators) == 1:
@@ -1281,6 +1339,30 @@ def _component(t: T, pos: T) -> Optional[Tuple[int, int, Optional[str]]]:
     return None
 
 
+def _as_coordinate_tuple(nb: T, pos: T, ndim: int) -> Optional[T]:
+    """tuple(moved) with  moved = list(pos); moved[k] = v  is the coordinate tuple of pos with component k replaced."""
+    from ..symex import mk as _mk, getitem
+
+    def unwrap(t):
+        t = strip_wrappers(t)
+        while t.op == "call" and t.args[0].op == "name" and t.args[0].args[0] in ("builtins.tuple", "builtins.list") and \
+                len(t.args) == 2:
+            t = strip_wrappers(t.args[1])
+        return t
+    t = unwrap(nb)
+    comps = {}
+    while t.op == "setitem":
+        base, idx, v = t.args
+        idx = strip_wrappers(idx)
+        if idx.op != "const" or not isinstance(idx.args[0], int) or isinstance(idx.args[0], bool) or ndim <= 0:
+            return None
+        comps.setdefault(idx.args[0] % ndim, v)          # the outermost store is the last one executed
+        t = unwrap(base)
+    if t is not pos or not comps:
+        return None
+    return _mk("tuple", *[comps.get(k, getitem(pos, const(k))) for k in range(ndim)])
+
+
 def _neighbour_elements(r: T):
     """[(coordinate tuple, axes the neighbour function range-tests itself)] of a neighbour list written as a display,
     a concatenation of displays, or an identity comprehension with a filter over a display; None if none of these"""
@@ -1356,7 +1438,10 @@ def lat45(ctx):
             offs = []
             for nb, filt in elems:
                 if nb.op != "tuple":
-                    raise Unmodelled(f"{ci.qualname}.get_nearest_neighbors: neighbour is not a tuple")
+                    nb2 = _as_coordinate_tuple(nb, pos, len(extent))
+                    if nb2 is None:
+                        raise Unmodelled(f"{ci.qualname}.get_nearest_neighbors: neighbour is not a tuple")
+                    nb = nb2
                 vec, mods = {}, {}
                 for axis_pos, c in enumerate(nb.args):
                     comp = _component(c, pos)
